@@ -69,9 +69,9 @@ def finish(chk: Check, results, kinds: set, rule: str) -> int:
         else:
             key = f"{e.get('cls', 'BestBatchSampler' if e['e'] == 'bestbatch' else '?')}:{w}"
             what = f"{key} bounds={e.get('bounds')} precision={e.get('prec')} options={e.get('kw')} returned={e.get('raw')}"
-        if chk.pid == "C03" and w not in ("shape", "offgrid") and e["e"] != "sample-raised":
+        if chk.pid == "C03" and w not in ("shape", "offgrid", "out-of-bounds") and e["e"] != "sample-raised":
             continue
-        if chk.pid == "C16" and w in ("shape", "offgrid"):
+        if chk.pid == "C16" and w in ("shape", "offgrid", "out-of-bounds"):
             continue
         chk.violation(key, what, {"event": e, "tlc": why})
     return chk.finish(rule)
